@@ -25,6 +25,9 @@ meta = {"seed": name, "property": pid, "steps": {}}
 os.makedirs("/tmp/vs", exist_ok=True)
 sh(f"git -C /repo worktree remove --force {wt}")
 PIN = open("/root/.vp/repo_root_sha").read().strip() if os.path.exists("/root/.vp/repo_root_sha") else "HEAD"
+for a in sys.argv:
+    if a.startswith("--base="):
+        PIN = a.split("=", 1)[1]   # seed was written against this commit
 if "--head" in sys.argv:
     PIN = "HEAD"   # seed was written against the current tree (with fix: commits)
 rc, out = sh(f"git -C /repo worktree add --detach {wt} {PIN}")
@@ -88,12 +91,14 @@ try:
     # new relative to the unpatched HEAD count as detections
     sh("git checkout -- . && git clean -fdq", cwd=wt)
     sh("git checkout -q --detach $(git -C /repo rev-parse HEAD)", cwd=wt)
-    rc, base_out = sh(f"REPO_DIR={wt} /verif/check all quick", timeout=1200)
+    BIN = os.environ.get("REFCHECK_BIN", "/verif/bin/refcheck")  # a frozen copy keeps baseline and patched runs comparable
+    CHK = f"PATH=/verif/bin/tc:$PATH GOTOOLCHAIN=local GOPROXY=off GOSUMDB=off GOWORK=off {BIN} -verif /verif -out /tmp/vs/out-{name} -dir {wt} all quick"
+    rc, base_out = sh(CHK, timeout=1200)
     base = set(re.findall(r"^VIOLATION property=(C\d+).*?key=(\S+)", base_out, re.M))
     rc, out = sh(f"git apply --3way {os.path.join(src, 'patch.diff')}", cwd=wt)
     meta["steps"]["patch_applies_on_head"] = rc == 0
     sh("git reset -q", cwd=wt)
-    rc, out = sh(f"REPO_DIR={wt} /verif/check all quick", timeout=1200)
+    rc, out = sh(CHK, timeout=1200)
     fired = sorted(set(re.findall(r"^VIOLATION property=(C\d+).*?key=(\S+)", out, re.M)) - base)
     meta["checker_broken"] = "BROKEN" in out
     meta["checks_fired"] = [{"property": p, "key": k} for p, k in fired]
@@ -103,7 +108,7 @@ try:
     meta["confirmed"] = ok
 finally:
     sh(f"git -C /repo worktree remove --force {wt}")
-    sh(f"rm -rf {wt}")
+    sh(f"rm -rf {wt} /tmp/vs/out-{name}")
 print(json.dumps(meta, indent=1))
 if ok:
     dst = f"/verif/seeded/{name}"
